@@ -507,6 +507,22 @@ class ExprMixin:
             return self.unknown("nested-comprehension", site)
         gen = e.generators[0]
         it = self.val(gen.iter, fr, st)
+        return self._comp_it(e, fr, st, kind, it, site)
+
+    def _comp_it(self, e, fr, st, kind, it, site, depth=0):
+        gen = e.generators[0]
+        if it.op == "Phi" and depth < 4 and all(a.op == "Phi" or self.known_items(a) is not None
+                                                  for a in it.args[1:]):
+            # the iterated sequence was chosen by a branch: evaluate the comprehension once per alternative
+            c = it.args[0]
+            base_pc = st.pc
+            s1, s2 = st.copy(), st.copy()
+            s1.pc = base_pc + ((c, True),)
+            s2.pc = base_pc + ((c, False),)
+            v1 = self._comp_it(e, fr, s1, kind, it.args[1], site, depth + 1)
+            v2 = self._comp_it(e, fr, s2, kind, it.args[2], site, depth + 1)
+            st.assign_from(self.merge2(c, s1, s2, base_pc))
+            return self.phi(c, v1, v2, site)
         saved = dict(st.locals)
         try:
             items = self.known_items(it)
